@@ -56,7 +56,14 @@ fn show_final(r: Result<ArgMatches, clap::Error>) -> String {
             let rendered = e.render().to_string();
             let k = e.kind();
             let stream = if e.use_stderr() { "stderr" } else { "stdout" };
-            format!("err {} {} {} msg {}", kind_name(k), stream, e.exit_code(), hex(rendered.as_bytes()))
+            // the first line of a help screen identifies the level (as in the `parse` mode)
+            let head = match k {
+                clap::error::ErrorKind::DisplayHelp | clap::error::ErrorKind::DisplayHelpOnMissingArgumentOrSubcommand => {
+                    format!(" {}", hex(rendered.lines().next().unwrap_or("").as_bytes()))
+                }
+                _ => String::new(),
+            };
+            format!("err {} {} {}{} msg {}", kind_name(k), stream, e.exit_code(), head, hex(rendered.as_bytes()))
         }
     }
 }
@@ -77,7 +84,12 @@ fn hist(a: &[Sx]) -> String {
 
     let mut cur = fresh.clone();
     let mut out = String::from("steps");
+    // the root is built by every by-reference call
+    let mut root_built = false;
     for op in a[1].args() {
+        if !matches!(op.head(), "clone" | "sugg") {
+            root_built = true;
+        }
         let obs = match op.head() {
             "parse" => {
                 let av: Vec<OsString> = op.args().iter().map(os).collect();
@@ -92,6 +104,29 @@ fn hist(a: &[Sx]) -> String {
             "usage" => format!("r {}", hex(cur.render_usage().to_string().as_bytes())),
             "clone" => {
                 cur = cur.clone();
+                "unit".to_string()
+            }
+            // what `did_you_mean_flag` does to the level that rejected an unknown long flag:
+            // `_build_self(false)` on each of its subcommands (reached here through the public
+            // `render_usage`); only levels the parser has been to (root built / bin name set)
+            "sugg" => {
+                let mut node = Some(&mut cur);
+                let mut ok = root_built;
+                for n in op.args() {
+                    if !ok {
+                        break;
+                    }
+                    let name = String::from_utf8(n.bytes()).unwrap();
+                    node = node.and_then(|c| c.get_subcommands_mut().find(|s| s.get_name() == name));
+                    ok = node.as_ref().map(|c| c.get_bin_name().is_some()).unwrap_or(false);
+                }
+                if ok {
+                    if let Some(c) = node {
+                        for s in c.get_subcommands_mut() {
+                            let _ = s.render_usage();
+                        }
+                    }
+                }
                 "unit".to_string()
             }
             x => panic!("hist op {x}"),
